@@ -42,6 +42,7 @@ type Exec struct {
 	usedSpecs  map[string]bool
 	lockOrderViol []string
 	covers map[string][]coverInst
+	leaf map[string]Comp
 	pendingClosure *Closure
 }
 
@@ -536,7 +537,7 @@ func (x *Exec) step(st *State, instr ssa.Instruction) {
 		}
 		x.guardCheckMap(st, in.X, false)
 		x.nfresh++
-		it := &Iter{Map: m, Visited: Term{"((as const (Array Int Bool)) false)", ArrSort(SBool)}, ID: x.nfresh}
+		it := &Iter{Map: m, Visited: Term{"((as const (Array Int Bool)) false)", ArrSort(SBool)}, ID: x.nfresh, Count: TZero}
 		st.iters[it.ID] = it
 		st.set(in, Val{Typ: in.Type(), Iter: it})
 	case *ssa.Next:
@@ -573,6 +574,7 @@ func (x *Exec) step(st *State, instr ssa.Instruction) {
 func (st *State) addEvent(e Event) {
 	if st.dryWrites != nil {
 		st.dryWrites["$events"] = true
+		_ = 0
 	}
 	h := make(map[string]Term, len(st.heap))
 	for k, v := range st.heap {
@@ -960,6 +962,10 @@ func (x *Exec) next(st *State, in *ssa.Next) {
 	done := st.clone()
 	kk := Term{"k!n", SInt}
 	done.assume(Forall([]Term{kk}, Implies(done.mapHas(m, kk), Select(it.Visited, kk))))
+	if !it.MapWritten {
+		// the map was not modified while iterating: every entry was yielded exactly once
+		done.assume(Eq(it.Count, done.mapLen(m)))
+	}
 	zk, zv := zeroVal(mt.Key()), zeroVal(mt.Elem())
 	done.set(in, Val{Typ: in.Type(), Sub: []Val{boolVal(TFalse), zk, zv}})
 	x.pushWork(done)
@@ -971,6 +977,7 @@ func (x *Exec) next(st *State, in *ssa.Next) {
 	st.assumeAllocated(v)
 	nit := *it
 	nit.Visited = Store(it.Visited, k, TTrue)
+	nit.Count = Add(it.Count, IntLit(1))
 	st.iters[it.ID] = &nit
 	st.set(in, Val{Typ: in.Type(), Sub: []Val{boolVal(TTrue), {Typ: mt.Key(), C: []Term{k}}, v}})
 }
